@@ -241,6 +241,26 @@ pub fn build_scale_subject(seed: u64, tag: &str) -> Subject {
 }
 
 /// The damages tried on the scale subject: hunks on both sides of the subdirectory boundary.
+/// Damage to blocks that share their d/xyz subdirectory with other blocks (with thousands of
+/// blocks most do): emptied and deleted.
+pub fn scale_block_damages(root: &Path) -> Vec<Damage> {
+    let mut by_dir: BTreeMap<String, Vec<String>> = BTreeMap::new();
+    for f in archive_files(root) {
+        if path_class(&f) == "block" {
+            by_dir.entry(f[..5].to_string()).or_default().push(f);
+        }
+    }
+    let mut v = Vec::new();
+    for (_, files) in by_dir.iter().filter(|(_, fs)| fs.len() >= 3).take(3) {
+        // the first, a middle and the last name of the subdirectory (readdir order is unknown)
+        for f in [&files[0], &files[files.len() / 2], &files[files.len() - 1]] {
+            v.push(Damage { relpath: f.clone(), action: Action::Truncate0 });
+        }
+        v.push(Damage { relpath: files[0].clone(), action: Action::Delete });
+    }
+    v
+}
+
 pub fn scale_damages() -> Vec<Damage> {
     let hunk = |n: u32| format!("b0000/{}", fmt06::hunk_relpath(n));
     let mut v = Vec::new();
